@@ -1008,6 +1008,28 @@ testing = _np.testing
 typing = getattr(_np, "typing", None)
 
 
+def broadcast_arrays(*args):
+    """numpy broadcasting for scalars, 1-D and 2-D operands (shapes aligned at the trailing dimension)"""
+    arrs = [a if isinstance(a, ndarray) else array(a) for a in args]
+    nd = builtins.max([a.ndim for a in arrs] + [0])
+    if nd > 2:
+        raise ShimUnsupported("broadcast_arrays beyond two dimensions")
+    shapes = [(1,) * (nd - a.ndim) + tuple(a.shape) for a in arrs]
+    out = tuple(builtins.max(s[i] for s in shapes) for i in range(nd))
+    for s in shapes:
+        if builtins.any(s[i] not in (1, out[i]) for i in range(nd)):
+            raise ValueError(f"shape mismatch: objects cannot be broadcast to a single shape. Mismatch is between {shapes}")
+    res = []
+    for a, s in zip(arrs, shapes):
+        if nd == 0:
+            res.append(ndarray(list(a._f), ()))
+        elif nd == 1:
+            res.append(ndarray([a._f[0 if s[0] == 1 else i] for i in range(out[0])], out, sw=a.sw))
+        else:
+            res.append(ndarray([a._f[(0 if s[0] == 1 else r) * s[1] + (0 if s[1] == 1 else c)] for r in range(out[0]) for c in range(out[1])], out, sw=a.sw))
+    return res
+
+
 def _guard_signatures():
     """a call that does not fit the stand-in's signature (a numpy keyword the stand-in does not know) is an unmodelled feature:
     the path is inconclusive - never a TypeError that could pass for a rejection by the code under test"""
